@@ -275,8 +275,11 @@ Definition cmd_branch (e : env) (c : ctx) (args : list bytes) (lst : bool) (rena
          let prev := w_head w in
          guard (negb (am_mem (w_refs w) rename)) ;;; guard (am_mem (w_refs w) prev) ;;;
          guard (valid_branch_name rename) ;;;
-         emit (ERenameRef prev rename) ;;;
+         (* the new branch file is written first, HEAD is pointed at it, and only then is the old
+            branch file removed: every intermediate state names existing branches *)
+         emit (ESetRef rename hid) ;;;
          emit (ESetHead rename) ;;;
+         emit (EDelRef prev) ;;;
          let msg := str "renamed refs/heads/"%string ++ prev ++ str " to refs/heads/"%string ++ rename in
          emit (EAppendHlog (log_rec e c (Some hid) None RBranch msg)) ;;;
          emit (EAppendHlog (log_rec e c None (Some hid) RBranch msg)) ;;;
